@@ -148,29 +148,60 @@ theorem mem_pairsLt (n : Nat) (jk : Nat × Nat) (h : jk ∈ pairsLt n) : jk.1 < 
   obtain ⟨j, _, k, ⟨hk, hjk⟩, e⟩ := h
   rw [← e]; exact ⟨hjk, hk⟩
 
-theorem tracks_step1 (t0 : STab) (st : InvState) (j : Nat) (h : Tracks t0 st) (hj : j < t0.n) :
-    Tracks t0 (invStep1 t0.n st j) := by
+theorem tracks_foldl {α : Type} (t0 : STab) (step : InvState → α → InvState) (l : List α) (P : α → Prop)
+    (hl : ∀ x, x ∈ l → P x) (hstep : ∀ st x, Tracks t0 st → P x → Tracks t0 (step st x))
+    (st : InvState) (h : Tracks t0 st) : Tracks t0 (l.foldl step st) := by
+  induction l generalizing st with
+  | nil => exact h
+  | cons x rest ih =>
+    simp only [List.foldl]
+    exact ih (fun y hy => hl y (List.mem_cons_of_mem _ hy)) (step st x) (hstep st x h (hl x List.mem_cons_self))
+
+/-- the clearing loop of block 1 is a sequence of row products -/
+theorem tracks_invClear (t0 : STab) (st : InvState) (j : Nat) (h : Tracks t0 st) (hj : j < t0.n) :
+    Tracks t0 (invClear t0.n j st) := by
+  unfold invClear
+  refine tracks_foldl t0 _ _ (fun i => j < i ∧ i < t0.n) ?_ ?_ st h
+  · intro i hi
+    simp only [List.mem_filter, List.mem_range, decide_eq_true_eq] at hi
+    exact ⟨hi.2, hi.1⟩
+  · intro st' i h' hi
+    show Tracks t0 (if _ then _ else _)
+    split
+    · exact tracks_rsum t0 st' j i h' (by rw [h'.n_eq]; exact hj) (by rw [h'.n_eq]; exact hi.2) (by omega)
+    · exact h'
+
+theorem tracks_step1 (t0 : STab) (st st' : InvState) (j : Nat) (h : Tracks t0 st) (hj : j < t0.n)
+    (hs : invStep1 t0.n st j = .ok st') : Tracks t0 st' := by
   have hjn : j < st.t.n := h.n_eq ▸ hj
-  unfold invStep1
-  generalize hft : st.t.pauliTypeFinder j j = ft
+  unfold invStep1 at hs
+  generalize hft : st.t.pauliTypeFinder j j = ft at hs
   obtain ⟨xs, ys, zs⟩ := ft
-  simp only
+  simp only at hs
   have bound : ∀ f, (f ∈ xs ∨ f ∈ ys ∨ f ∈ zs) → f < st.t.n := by
     intro f hf
     have := mem_typeFinder st.t j j f (by rw [hft]; exact hf)
     exact this.2
-  split
-  · next f hf => exact tracks_swap t0 st j f h hjn (bound f (Or.inl (List.mem_of_mem_head? hf)))
-  · split
-    · next f hf => exact tracks_swap t0 st j f h hjn (bound f (Or.inr (Or.inl (List.mem_of_mem_head? hf))))
-    · split
-      · next f hf =>
-        have hfz : f ∈ zs := List.mem_of_getLast? hf
-        have h1 := tracks_swap t0 st j f h hjn (bound f (Or.inr (Or.inr hfz)))
-        split
-        · exact tracks_gate t0 _ (.H j) h1 (by show j < (st.swap j f).t.n; exact hjn)
-        · exact h1
-      · exact h
+  split at hs
+  · next f hf =>
+    injection hs with hs; subst hs
+    exact tracks_swap t0 st j f h hjn (bound f (Or.inl (List.mem_of_mem_head? hf)))
+  · split at hs
+    · next f hf =>
+      injection hs with hs; subst hs
+      exact tracks_swap t0 st j f h hjn (bound f (Or.inr (Or.inl (List.mem_of_mem_head? hf))))
+    · split at hs
+      · injection hs with hs; subst hs; exact h
+      · split at hs
+        · cases hs
+        · next f hf =>
+          injection hs with hs; subst hs
+          have hfz : f ∈ zs := (List.mem_filter.mp (List.mem_of_getLast? hf)).1
+          have h1 := tracks_swap t0 st j f h hjn (bound f (Or.inr (Or.inr hfz)))
+          have h2 := tracks_invClear t0 _ j h1 hj
+          split
+          · exact tracks_gate t0 _ (.H j) h2 (by rw [h2.n_eq]; exact hj)
+          · exact h2
 
 theorem tracks_step2 (t0 : STab) (st : InvState) (jk : Nat × Nat) (h : Tracks t0 st) (hm : jk ∈ pairsLt t0.n) :
     Tracks t0 (invStep2 st jk) := by
@@ -215,20 +246,28 @@ theorem tracks_step7 (t0 : STab) (st : InvState) (i : Nat) (h : Tracks t0 st) (h
   unfold invStep7
   exact tracks_gate t0 st _ h (by show i < st.t.n; rw [h.n_eq]; exact hi)
 
-theorem tracks_foldl {α : Type} (t0 : STab) (step : InvState → α → InvState) (l : List α) (P : α → Prop)
-    (hl : ∀ x, x ∈ l → P x) (hstep : ∀ st x, Tracks t0 st → P x → Tracks t0 (step st x))
-    (st : InvState) (h : Tracks t0 st) : Tracks t0 (l.foldl step st) := by
+/-- block 1 as a monadic fold: every step that returns keeps the invariant -/
+theorem tracks_foldlM (t0 : STab) (l : List Nat) (hl : ∀ x, x ∈ l → x < t0.n) (st st' : InvState) (h : Tracks t0 st)
+    (hs : l.foldlM (invStep1 t0.n) st = .ok st') : Tracks t0 st' := by
   induction l generalizing st with
-  | nil => exact h
+  | nil =>
+    simp only [List.foldlM_nil] at hs
+    injection hs with hs; subst hs; exact h
   | cons x rest ih =>
-    simp only [List.foldl]
-    exact ih (fun y hy => hl y (List.mem_cons_of_mem _ hy)) (step st x) (hstep st x h (hl x List.mem_cons_self))
+    simp only [List.foldlM_cons] at hs
+    cases h1 : invStep1 t0.n st x with
+    | error e => rw [h1] at hs; cases hs
+    | ok s1 =>
+      rw [h1] at hs
+      exact ih (fun y hy => hl y (List.mem_cons_of_mem _ hy)) s1
+        (tracks_step1 t0 st s1 x h (hl x List.mem_cons_self) h1) hs
 
-theorem tracks_invBlocks (t0 : STab) (hg : t0.Good) : Tracks t0 (invBlocks t0) := by
-  unfold invBlocks
+theorem tracks_invBlock1 (t0 : STab) (hg : t0.Good) (s1 : InvState) (h : invBlock1 t0 = .ok s1) : Tracks t0 s1 :=
+  tracks_foldlM t0 (List.range t0.n) (fun x hx => List.mem_range.mp hx) _ s1 (tracks_init t0 hg) h
+
+theorem tracks_invRest (t0 : STab) (s1 : InvState) (h1 : Tracks t0 s1) : Tracks t0 (invRest t0.n s1) := by
+  unfold invRest
   have lt_of_range : ∀ x, x ∈ List.range t0.n → x < t0.n := fun x hx => List.mem_range.mp hx
-  have h1 := tracks_foldl t0 (invStep1 t0.n) (List.range t0.n) (fun j => j < t0.n) lt_of_range
-    (fun st j h hj => tracks_step1 t0 st j h hj) _ (tracks_init t0 hg)
   have h2 := tracks_foldl t0 invStep2 (pairsLt t0.n) (fun jk => jk ∈ pairsLt t0.n) (fun _ h => h)
     (fun st jk h hm => tracks_step2 t0 st jk h hm) _ h1
   have h3 := tracks_foldl t0 invStep3 (pairsLt t0.n) (fun jk => jk ∈ pairsLt t0.n) (fun _ h => h)
@@ -242,6 +281,27 @@ theorem tracks_invBlocks (t0 : STab) (hg : t0.Good) : Tracks t0 (invBlocks t0) :
   exact tracks_foldl t0 invStep7 _ (fun j => j < t0.n)
     (fun x hx => List.mem_range.mp (List.mem_filter.mp hx).1)
     (fun st j h hj => tracks_step7 t0 st j h hj) _ h6
+
+theorem tracks_invBlocks (t0 : STab) (hg : t0.Good) (s : InvState) (h : invBlocks t0 = .ok s) : Tracks t0 s := by
+  unfold invBlocks at h
+  split at h
+  · cases h
+  · next s1 h1 =>
+    injection h with h; subst h
+    exact tracks_invRest t0 s1 (tracks_invBlock1 t0 hg s1 h1)
+
+/-- what `inverse_circuit` returns, in terms of the blocks -/
+theorem inverseCircuit_eq (t t' : STab) (circ : List Gate) (h : t.inverseCircuit = .ok (t', circ)) :
+    ∃ t0 s, t.canonicalForm = .ok t0 ∧ invBlocks t0 = .ok s ∧ s.t = t' ∧ s.circ = circ := by
+  unfold STab.inverseCircuit at h
+  split at h
+  · cases h
+  · next t0 hc =>
+    split at h
+    · cases h
+    · next s hs =>
+      injection h with h
+      exact ⟨t0, s, hc, hs, congrArg Prod.fst h, congrArg Prod.snd h⟩
 
 /-! ### running the reversed list (with `P ↔ P_dag`) undoes the circuit: `run_circuit(..., reverse=True)` -/
 
@@ -364,21 +424,15 @@ theorem inverseCircuit_tracks (t t' : STab) (circ : List Gate) (hg : t.Good) (h 
     t'.n = t.n ∧ t'.Good ∧ (∀ g, g ∈ circ → g.WF t.n) ∧
     (∀ a, t.Spn a → t'.Spn (actCirc circ a)) ∧
     (∀ b, t'.Spn b → ∃ a, t.Spn a ∧ EqOn t.n (actCirc circ a) b) := by
-  unfold STab.inverseCircuit at h
-  split at h
-  · cases h
-  · next t0 hc =>
-    injection h with h
-    have e1 : (invBlocks t0).t = t' := congrArg Prod.fst h
-    have e2 : (invBlocks t0).circ = circ := congrArg Prod.snd h
-    obtain ⟨sc, g0⟩ := canonicalForm_spanEq t t0 hg hc
-    have tr := tracks_invBlocks t0 g0
-    have hn : t0.n = t.n := sc.n_eq.symm
-    subst e1; subst e2
-    refine ⟨tr.n_eq.trans hn, tr.good, fun g hgm => hn ▸ tr.wf g hgm, ?_, ?_⟩
-    · intro a ha; exact tr.fwd a (sc.sub a ha)
-    · intro b hb
-      obtain ⟨a, ha, ea⟩ := tr.bwd b hb
-      exact ⟨a, sc.sup a ha, hn ▸ ea⟩
+  obtain ⟨t0, s, hc, hs, e1, e2⟩ := inverseCircuit_eq t t' circ h
+  obtain ⟨sc, g0⟩ := canonicalForm_spanEq t t0 hg hc
+  have tr := tracks_invBlocks t0 g0 s hs
+  have hn : t0.n = t.n := sc.n_eq.symm
+  subst e1; subst e2
+  refine ⟨tr.n_eq.trans hn, tr.good, fun g hgm => hn ▸ tr.wf g hgm, ?_, ?_⟩
+  · intro a ha; exact tr.fwd a (sc.sub a ha)
+  · intro b hb
+    obtain ⟨a, ha, ea⟩ := tr.bwd b hb
+    exact ⟨a, sc.sup a ha, hn ▸ ea⟩
 
 end Graphiq
